@@ -1049,6 +1049,11 @@ func (g *gen) dataNoti(t string, pathOrigins bool) *Noti {
 		if pathOrigins && n.Prefix.Origin == "" && len(n.Prefix.Elems) == 0 && r.Chance(1, 4) {
 			u.Path.Origin = g.origin(0, 2, 1)
 		}
+		if r.Chance(1, 100) {
+			// empty index path: rejected by the cache
+			n.Prefix.Origin, n.Prefix.Elems = "", nil
+			u.Path = GPath{}
+		}
 		n.Upds = []Upd{u}
 	case 1:
 		// several leaves below one prefix element
@@ -1100,8 +1105,8 @@ func (g *gen) dataNoti(t string, pathOrigins bool) *Noti {
 			}
 		}
 		d = g.split(n, d)
-		if len(d) == 0 && len(n.Prefix.Elems) == 0 && n.Prefix.Origin == "" {
-			d = []Elem{el("*")}
+		if len(d) == 0 && len(n.Prefix.Elems) == 0 && n.Prefix.Origin == "" && r.Chance(1, 2) {
+			d = []Elem{el("*")} // otherwise: the empty index path, which deletes the whole target's data
 		}
 		n.Dels = []GPath{{Elems: d}}
 	}
